@@ -892,7 +892,7 @@ def parse_traces(text):
     return res
 
 
-def run_real(binary, cases_file, timeout=900, env=None):
+def run_real(binary, cases_file, timeout=240, env=None):
     rc, out = vlib.run([binary, cases_file], timeout=timeout, env=env)
     return rc, out
 
@@ -945,7 +945,7 @@ def chunks(cases, k):
     return [cases[i::k] for i in range(k)]
 
 
-def run_both(binary, driver, cases, tag, nproc=None, fuel=600000, drop_log=False, inline=False, need_real_mon=True):
+def run_both(binary, driver, cases, tag, nproc=None, fuel=600000, drop_log=False, inline=False, need_real_mon=True, real_timeout=240):
     """Run real + model on the cases (sharded).  -> dict name -> dict(real, model, realmon)"""
     import concurrent.futures as cf
     os.makedirs(WORK, exist_ok=True)
@@ -958,7 +958,7 @@ def run_both(binary, driver, cases, tag, nproc=None, fuel=600000, drop_log=False
         with open(cf_, "w") as f:
             for name, prog in shard:
                 f.write(ser_case(name, prog))
-        rc1, real = run_real(binary, cf_)
+        rc1, real = run_real(binary, cf_, timeout=real_timeout)
         rc2, model = run_model(driver, cf_, fuel=fuel, inline=inline)
         rt = parse_traces(real)
         mt = parse_traces(model)
@@ -1272,7 +1272,7 @@ def make_fails(prop, binary, driver, kind, drop_log=False):
     def fails(prog):
         counter[0] += 1
         name = "shrink%d" % counter[0]
-        res = run_both(binary, driver, [(name, prog)], "shrink-%d" % os.getpid(), nproc=1, drop_log=drop_log)
+        res = run_both(binary, driver, [(name, prog)], "shrink-%d" % os.getpid(), nproc=1, drop_log=drop_log, real_timeout=20)
         r = res[name]
         v, _ = judge(prop, r, drop_log)
         if kind == "diff":
@@ -1381,8 +1381,9 @@ def run(prop, tier, seed):
             vlib.known_finding(prop, "class=%s %s (witness %s reproduces: %s_ok is false on the real trace; %d generated/corpus cases in the class)"
                                % (f.get("class"), f["record"].split(" ", 3)[-1][:160], ",".join(wit), prop, len(names)))
     rc = 0
-    mon_v = [v for v in violations if v[0] == "mon"]
-    other_v = [v for v in violations if v[0] != "mon"]
+    # a false monitor on a real trace, or a crash / panic of the real crate on a valid program, is a failing input
+    mon_v = [v for v in violations if v[0] in ("mon", "crash")]
+    other_v = [v for v in violations if v[0] not in ("mon", "crash")]
     if mon_v:
         for kind, name, path, detail in mon_v[:1]:
             vlib.violation(prop, path)
